@@ -180,19 +180,7 @@ def run(rep):
               'order', node=f)
 
     # ---- R20.6 ---------------------------------------------------------------
-    f = find_def(dmod, 'alsoProvides')
-    ok = bool(find_all(f, 'directlyProvides(object, directlyProvidedBy(object), *interfaces)'))
-    rep.check('R20.6', 'declarations.alsoProvides', ok,
-              'existing direct declarations first, then the new interfaces',
-              node=f)
-    f = find_def(dmod, 'noLongerProvides')
-    ok = bool(find_all(f, 'directlyProvides(object, directlyProvidedBy(object) - interface)'))
-    g = [n for n in f.body if isinstance(n, ast.If)
-         and match('interface.providedBy(object)', n.test) is not None
-         and any(isinstance(s, ast.Raise) for s in n.body)]
-    rep.check('R20.6', 'declarations.noLongerProvides', ok and len(g) == 1,
-              'declares directlyProvidedBy(object) - interface, then rejects '
-              'interfaces still provided through the class', node=f)
+    declsem.provides_users(rep, dmod, 'R20.6')
     f = find_def(dmod, 'directlyProvidedBy')
     rets = [n for n in walk_local(f) if isinstance(n, ast.Return)]
     vals = sorted(norm_src(r.value) for r in rets)
